@@ -616,4 +616,67 @@ Section RefineColl.
   Lemma abs_new_collection : abs_coll (new_collection true) = new_scoll.
   Proof. reflexivity. Qed.
 
+  (* ---------------------------------------------------------------- *)
+  (* an operation of the reference that reports no change changes nothing *)
+
+  Lemma scoll_eta sc : mkSColl (sc_docs sc) (sc_defs sc) = sc.
+  Proof. destruct sc; reflexivity. Qed.
+
+  Lemma s_find_in docs q sort skip limit r :
+    s_find matchf docs q sort skip limit = Ok r -> incl r (number docs 0).
+  Proof. unfold s_find. apply (find_list_in matchf). Qed.
+
+  Lemma s_update_unchanged now sc q u sort skip limit afs sc' sr :
+    s_update matchf applyf now sc q u sort skip limit afs = inl (sc', sr) ->
+    sr_modified sr = [] -> sc' = sc.
+  Proof.
+    rewrite s_update_eq.
+    destruct (s_find matchf (sc_docs sc) q sort skip limit) as [[|x t]| | | |] eqn:Hf; try discriminate.
+    - intro H. inversion H. reflexivity.
+    - unfold s_update_with.
+      destruct (s_apply_all applyf now (x :: t) q u afs) as [newl| | | |] eqn:Ha; try discriminate.
+      destruct (negb (s_ids_unchanged (x :: t) newl)); try discriminate.
+      destruct (removable_all (sc_defs sc) (x :: t)); try discriminate.
+      destruct (admit_all (sc_defs sc) (without (sc_docs sc) (map fst (x :: t))) newl);
+        try discriminate.
+      intro H. inversion H; subst. cbn [sr_modified]. intro Hm.
+      pose proof (s_modified_nil (x :: t) newl (s_apply_all_tags applyf _ _ _ _ _ _ Ha) Hm) as ->.
+      rewrite (replace_all_at_same (sc_docs sc) (x :: t) (s_find_in _ _ _ _ _ _ Hf)).
+      apply scoll_eta.
+  Qed.
+
+  Lemma s_replace_unchanged sc q repl sort sc' sr :
+    s_replace matchf sc q repl sort = inl (sc', sr) -> sr_modified sr = [] -> sc' = sc.
+  Proof.
+    rewrite s_replace_eq.
+    destruct (s_find matchf (sc_docs sc) q sort 0 1) as [[|[i old] t]| | | |] eqn:Hf; try discriminate.
+    - intro H. inversion H. reflexivity.
+    - unfold s_replace_with.
+      destruct (replace_prepared old repl) as [repl'| | | |]; try discriminate.
+      destruct (removable (sc_defs sc) old); try discriminate.
+      destruct (admits (sc_defs sc) (without (sc_docs sc) [i]) repl'); try discriminate.
+      intro H.
+      assert (E1 : sc' = mkSColl (replace_at (sc_docs sc) i repl') (sc_defs sc)) by congruence.
+      assert (E2 : sr = mkSR [old] (if value_eqb (VDoc old) (VDoc repl') then [] else [repl']) None)
+        by congruence.
+      subst sc' sr. clear H. cbn [sr_modified].
+      destruct (value_eqb (VDoc old) (VDoc repl')) eqn:E; [|intro Hx; discriminate Hx]. intros _.
+      apply value_eqb_eq in E. inversion E; subst repl'.
+      pose proof (number_in_replace_at (sc_docs sc) 0 i old
+                    (s_find_in _ _ _ _ _ _ Hf _ (or_introl eq_refl))) as Hr.
+      rewrite Z.sub_0_r in Hr. rewrite Hr. apply scoll_eta.
+  Qed.
+
+  Lemma s_delete_shape sc q sort skip limit sc' sr :
+    s_delete matchf sc q sort skip limit = inl (sc', sr) ->
+    sr_modified sr = [] /\ sr_upserted sr = None /\ (sr_matched sr = [] -> sc' = sc).
+  Proof.
+    unfold s_delete.
+    destruct (s_find matchf (sc_docs sc) q sort skip limit) as [matched| | | |]; try discriminate.
+    destruct (removable_all (sc_defs sc) matched); try discriminate.
+    intro H. inversion H; subst. cbn [sr_modified sr_upserted sr_matched].
+    split; [reflexivity|]. split; [reflexivity|]. intro Hm.
+    destruct matched as [|m ms]; [|simpl in Hm; discriminate]. cbn [map]. rewrite without_nil. apply scoll_eta.
+  Qed.
+
 End RefineColl.
